@@ -355,6 +355,74 @@ pub fn generate(prop: &str, thorough: bool, rng: &mut Rng) -> Case {
             }
             clients.push(ops);
         }
+        "C04" => {
+            if rng.chance(1, if thorough { 12 } else { 60 }) {
+                // big-blob variant: one blob whose index spills into its second page (> 170 entries), then an in-place
+                // rewrite of that two-page index; crash points are enumerated around the tail of the write log
+                cfg.insert("keys".into(), 190);
+                cfg.insert("thorough".into(), 1);
+                cfg.insert("focus_tail".into(), 10);
+                cfg.insert("policy".into(), 1);
+                cfg.insert("mem_cap".into(), 4);
+                cfg.insert("mem_shards".into(), 1);
+                cfg.insert("blocks".into(), 4);
+                cfg.insert("block_pages".into(), 256);
+                cfg.insert("blob_pages".into(), 2);
+                cfg.insert("flushers".into(), 1);
+                cfg.insert("comp".into(), 0);
+                cfg.insert("inmem_mod".into(), 0);
+                cfg.insert("ondisk_mod".into(), 0);
+                cfg.insert("buf_pages".into(), 300);
+                cfg.insert("max_steps".into(), 30_000_000);
+                let first = 168 + rng.below(8) as u64;
+                let mut ops = vec![];
+                for k in 0..first {
+                    ops.push(Op::Insert { k, ver: 0, w: 0, loc: 0, hold: false });
+                    if k % 50 == 49 {
+                        ops.push(Op::Wait);
+                    }
+                }
+                ops.push(Op::Wait);
+                for k in first..(first + 2 + rng.below(8) as u64) {
+                    ops.push(Op::Insert { k, ver: 0, w: 0, loc: 0, hold: false });
+                    if rng.chance(1, 2) {
+                        ops.push(Op::Wait);
+                    }
+                }
+                ops.push(Op::Wait);
+                clients.push(ops);
+                return Case { property: prop.to_string(), scenario: "hyb".into(), cfg, clients };
+            }
+            let keys = 3 + rng.below(4) as u64;
+            cfg.insert("keys".into(), keys as i64);
+            cfg.insert("thorough".into(), thorough as i64);
+            cfg.insert("mem_cap".into(), 2 + rng.below(3) as i64);
+            // two sub-configurations: ample device (no reclaim: strong clause) and small device (reclaim: weak clause)
+            if rng.chance(2, 3) {
+                cfg.insert("blocks".into(), 16 + rng.below(8) as i64);
+                cfg.insert("block_pages".into(), 16);
+            } else {
+                cfg.insert("blocks".into(), 4 + rng.below(3) as i64);
+                cfg.insert("block_pages".into(), 8);
+            }
+            cfg.insert("inmem_mod".into(), 0);
+            cfg.insert("ondisk_mod".into(), 0);
+            cfg.insert("comp".into(), if rng.chance(2, 3) { 0 } else { 1 + rng.below(2) as i64 });
+            fit_buffers(&mut cfg, rng, false);
+            let loc = |_k: u64| -> u8 { 0 };
+            let mix = Mix { insert: 50, writer: 3, get: 10, fetch: 4, contains: 0, remove: 12, clear: 0, evict_all: 8, wait: 12, reopen: 0, yld: 3 };
+            let classes = if rng.chance(1, 4) { vec![0, 1, 4] } else { vec![0, 1, 1, 2] };
+            let n = (6 + rng.below(if thorough { 30 } else { 22 })) * 1;
+            let mut ops = gen_ops(rng, n, keys, &mix, &classes, &loc);
+            for op in ops.iter_mut() {
+                match op {
+                    Op::Insert { hold, .. } | Op::Get { hold, .. } => *hold = false,
+                    Op::WriterInsert { k, w, .. } => *op = Op::Insert { k: *k, ver: 0, w: *w, loc: 0, hold: false },
+                    _ => {}
+                }
+            }
+            clients.push(ops);
+        }
         _ => panic!("hybgen: unknown property {prop}"),
     }
     Case { property: prop.to_string(), scenario: "hyb".into(), cfg, clients }
